@@ -133,6 +133,18 @@ def make_cases(tier):
     for j, f in enumerate(c04.duplicate_files()[3:]):
         for src in (2, 20):
             base.append(A.case("c08dup2-%d-%d-lazy" % (j, src), f, src, "lazy"))
+    # all stanzas match at the same node, so the stanza order is the processing order: two definitions of one variable on that node,
+    # with definitions of the same name on OTHER nodes (children reached through a capture) between them in some orders only
+    base.append(A.case("c08sep-lazy", A.file([
+        A.stanza(qm, [A.let(sv("v"), A.string("a"))]),
+        A.stanza("(module (_) @c) @_m ", [A.let(A.svar(A.cap("c"), "v"), A.string("b"))]),
+        A.stanza(qm, [A.let(sv("v"), A.string("d"))]),
+    ]), 2, "lazy"))
+    base.append(A.case("c08sep2-lazy", A.file([
+        A.stanza(qm, [A.let(sv("v"), A.string("a")), A.node(sv("n")), A.attrn(sv("n"), A.attr("v", sv("v")))]),
+        A.stanza("(module (_)* @cs) @_m ", [A.forin("c", A.cap("cs"), [A.let(A.svar(A.var("c"), "v"), A.string("b"))])]),
+        A.stanza(qm, [A.let(sv("v"), A.string("d"))]),
+    ]), 5, "lazy"))
     # a stanza whose query is the bare wildcard, in every position of the file
     base.append(A.case("c08wild-lazy", A.file([
         A.stanza("(pass_statement) @p ", [A.node(A.svar(A.cap("p"), "n"))]),
